@@ -184,7 +184,7 @@ def main(argv=None):
         if case is not None:
             rshard = dict(kind="cases", cases=[case], flavour=(shard or {}).get("flavour"),
                           origin=(shard or {}).get("kind"))
-            for k in ("variant", "hashseed", "env", "pyflags"):
+            for k in ("variant", "hashseed", "env", "pyflags", "bits"):
                 if shard and k in shard:
                     rshard[k] = shard[k]
         with open(path, "w") as f:
